@@ -52,10 +52,11 @@ def case_roundtrip(name):
         m = all_meshes()[name]
         m = m.copy(points=m.points + 0.05 * rng.uniform(-1, 1, m.points.shape))  # non-trivial coordinates
         with scratch() as d:
-            for ext in ("vtk", "vtu", "xdmf"):
-                fn_ = os.path.join(d, "%s.%s" % (name, ext))
+            for ext, writer in [(e, w) for e in ("vtk", "vtu", "xdmf") for w in ("write", "save")]:
+                fn_ = os.path.join(d, "%s_%s.%s" % (name, writer, ext))
                 try:
-                    m.write(fn_)
+                    # both documented spellings, on a mesh that is a modified copy of another one
+                    getattr(m, writer)(fn_)
                 except (KeyError, meshio.WriteError, ValueError) as exc:
                     run.note("meshio writer refuses (%s, %s): %s" % (name, ext, type(exc).__name__))
                     run.skip("files.mesh", "writer refuses this (cell type, format)")
@@ -72,10 +73,10 @@ def case_roundtrip(name):
                       and m2.points.shape == m.points.shape and np.array_equal(m2.points, m.points))
                 ok_raw = np.array_equal(raw.points[:, : m.dim], m.points) and (raw.points.shape[1] == m.dim or maxabs(raw.points[:, m.dim:]) == 0)
                 if ok and ok_raw:
-                    run.ok("files.mesh", unit="mesh:%s:%s" % (name, ext), config=(name, ext),
+                    run.ok("files.mesh", unit="mesh:%s:%s" % (name, ext), config=(name, ext, writer),
                            sample={"cell_type": name, "format": ext, "points": int(m.npoints), "cells": int(m.ncells)})
                 else:
-                    run.fail("files.mesh", "celltype=%s format=%s clause=roundtrip" % (name, ext),
+                    run.fail("files.mesh", "celltype=%s format=%s clause=roundtrip%s" % (name, ext, "" if writer == "write" else " via=save"),
                              "writing and reading back a %s mesh as %s does not give the same points, cells and cell type" % (name, ext),
                              {"cell_type_back": m2.cell_type, "cells_equal": bool(np.array_equal(m2.cells, m.cells)),
                               "points_equal": bool(m2.points.shape == m.points.shape and np.array_equal(m2.points, m.points))})
